@@ -12,6 +12,9 @@ package main
 
 import (
 	"go/token"
+	"go/types"
+	"sort"
+	"strings"
 
 	"golang.org/x/tools/go/ssa"
 )
@@ -32,22 +35,36 @@ func (m *Model) RunLoadAll(s *Sink, rule string) {
 	}
 	var sites []regSite
 	for _, fn := range rootFns {
-		for _, li := range naturalLoops(fn) {
-			for b := range li.body {
-				for _, in := range b.Instrs {
-					mu, ok := in.(*ssa.MapUpdate)
-					if !ok || progT == nil {
-						continue
-					}
-					if pn := ptrNamed(mu.Value.Type()); pn != nil && pn == progT {
-						sites = append(sites, regSite{fn, mu, li})
+		loops := naturalLoops(fn)
+		for _, b := range fn.Blocks {
+			for _, in := range b.Instrs {
+				mu, ok := in.(*ssa.MapUpdate)
+				if !ok || progT == nil {
+					continue
+				}
+				if pn := ptrNamed(mu.Value.Type()); pn == nil || pn != progT {
+					continue
+				}
+				// in the loop over the files, or in a function that loads one file (the whole function is a pass then)
+				var in *loopInfo
+				for _, li := range loops {
+					if li.body[b] {
+						in = li
 					}
 				}
+				if in == nil {
+					body := map[*ssa.BasicBlock]bool{}
+					for _, fb := range fn.Blocks {
+						body[fb] = true
+					}
+					in = &loopInfo{fn: fn, header: fn.Blocks[0], body: body}
+				}
+				sites = append(sites, regSite{fn, mu, in})
 			}
 		}
 	}
 	if len(sites) == 0 {
-		s.Undecided(rule, "loader", "-", "no loop of the root package registers parsed programs in a table (parsePrograms was the confirmed instance)")
+		s.Undecided(rule, "loader", "-", "no function of the root package registers parsed programs in a table (parsePrograms was the confirmed instance)")
 		return
 	}
 	callsMethod := func(fn *ssa.Function, name string) bool {
@@ -62,24 +79,86 @@ func (m *Model) RunLoadAll(s *Sink, rule string) {
 		}
 		return false
 	}
-	linkers := map[string]*ssa.Function{}
-	for _, fn := range rootFns {
-		if callsMethod(fn, "ApplyLayout") {
-			linkers["the layout"] = fn
+	// the linkers: for the layout, whatever calls ast.Program.ApplyLayout directly (a function of the root package, or a
+	// method of ast.Program that wraps it); for the components, the function that goes over the uses of a program (it
+	// reads Program.Components) — the per-use helper it may call in that loop is not the linker: a page without
+	// components never reaches it
+	var modFns []*ssa.Function
+	for _, fn := range m.ModFns {
+		if sp := shortPkg(fnPkgPath(fn)); fn.Blocks != nil && (sp == "textwire" || sp == "ast") {
+			modFns = append(modFns, fn)
 		}
-		if callsMethod(fn, "ApplyComponent") {
-			linkers["the components"] = fn
+	}
+	linkers := map[string]map[*ssa.Function]bool{"the layout": {}, "the components": {}}
+	for _, fn := range modFns {
+		if callsMethod(fn, "ApplyLayout") {
+			linkers["the layout"][fn] = true
+		}
+		if shortPkg(fnPkgPath(fn)) == "textwire" {
+			for _, b := range fn.Blocks {
+				for _, in := range b.Instrs {
+					if fa, ok := in.(*ssa.FieldAddr); ok && progT != nil {
+						if nt, i, okA := fieldAccess(fa); okA && nt == progT && canonFieldName(progT, i, progT.Underlying().(*types.Struct).Field(i).Name()) == "Components" {
+							// it goes over the uses (an element is taken), it does not merely ask how many there are
+							for _, r := range *fa.Referrers() {
+								ld, isLd := r.(*ssa.UnOp)
+								if !isLd || ld.Referrers() == nil {
+									continue
+								}
+								for _, u := range *ld.Referrers() {
+									switch u.(type) {
+									case *ssa.IndexAddr, *ssa.Index, *ssa.Range:
+										linkers["the components"][fn] = true
+									}
+								}
+							}
+						}
+					}
+				}
+			}
+		}
+	}
+	if len(linkers["the components"]) == 0 {
+		for _, fn := range modFns {
+			if callsMethod(fn, "ApplyComponent") {
+				linkers["the components"][fn] = true
+			}
 		}
 	}
 	for _, st := range sites {
 		for _, what := range []string{"the layout", "the components"} {
-			lk := linkers[what]
+			lks := linkers[what]
 			key := fnKey(st.fn) + "|a program is registered after " + what + " were linked"
-			if lk == nil {
-				s.Undecided(rule, key, m.InstrPos(st.mu), "the function of the root package that links %s was not found", what)
+			if len(lks) == 0 {
+				s.Undecided(rule, key, m.InstrPos(st.mu), "the function that links %s was not found", what)
 				continue
 			}
-			ci := m.newPassInfo(func(c ssa.CallInstruction) bool { return c.Common().StaticCallee() == lk }, func(*ssa.Call) bool { return false }, rootFns, nil, "erraware")
+			var lkNames []string
+			for f := range lks {
+				lkNames = append(lkNames, canonFnName(f))
+			}
+			sort.Strings(lkNames)
+			lkName := strings.Join(lkNames, " / ")
+			// "nothing to link" is as good as linked: the edge on which the program has no use statement
+			var edgePoint func(pred, succ *ssa.BasicBlock) bool
+			if what == "the layout" {
+				edgePoint = func(pred, succ *ssa.BasicBlock) bool {
+					for _, f := range expandFacts(edgeFact(pred, succ)) {
+						if c, isC := f.Cond.(*ssa.Call); isC && !f.Holds && c.Call.StaticCallee() != nil && canonFnName(c.Call.StaticCallee()) == "HasUseStmt" {
+							return true
+						}
+						if bo, isBo := f.Cond.(*ssa.BinOp); isBo && (bo.Op == token.EQL || bo.Op == token.NEQ) && (bo.Op == token.EQL) == f.Holds {
+							for _, pr := range [][2]ssa.Value{{bo.X, bo.Y}, {bo.Y, bo.X}} {
+								if isNilConst(pr[1]) && strings.HasSuffix(fieldPathOf(pr[0]), ".UseStmt") {
+									return true
+								}
+							}
+						}
+					}
+					return false
+				}
+			}
+			ci := m.newPassInfoOpts(func(c ssa.CallInstruction) bool { sc := c.Common().StaticCallee(); return sc != nil && lks[sc] }, func(*ssa.Call) bool { return false }, modFns, edgePoint)
 			target := st.mu.Block()
 			idx := 0
 			for i, in := range target.Instrs {
@@ -88,9 +167,9 @@ func (m *Model) RunLoadAll(s *Sink, rule string) {
 				}
 			}
 			if ci.pathAvoiding(st.fn, st.li.header, 0, func(x *ssa.BasicBlock) bool { return x == target && !ci.blockConsumesBefore(x, idx) }, st.li.body) {
-				s.Violation(rule, key, m.InstrPos(st.mu), "%s can register a program without %s having been called for it in that pass of the loop (directly or through a helper that always calls it): a page that uses a layout and components gets only one of the two — its components keep no program (\"the component must have a block\" at render time), a missing component file or an undeclared slot is not reported at load", fnKey(st.fn), canonFnName(lk))
+				s.Violation(rule, key, m.InstrPos(st.mu), "%s can register a program without %s having been called for it in that pass of the loop (directly or through a helper that always calls it): a page that uses a layout and components gets only one of the two — its components keep no program (\"the component must have a block\" at render time), a missing component file or an undeclared slot is not reported at load", fnKey(st.fn), lkName)
 			} else {
-				s.OK(rule, key, m.InstrPos(st.mu), "every path of a pass from the head of the loop to the registration calls %s", canonFnName(lk))
+				s.OK(rule, key, m.InstrPos(st.mu), "every path of a pass from the head of the loop to the registration calls %s", lkName)
 			}
 		}
 		// no file is skipped
@@ -123,16 +202,34 @@ func (m *Model) RunLoadAll(s *Sink, rule string) {
 				if layoutEdge {
 					continue
 				}
-				if nx == st.li.header {
+				if nx == st.li.header && nx != st.fn.Blocks[0] {
 					skipAt = m.InstrPos(b.Instrs[len(b.Instrs)-1])
 					return
 				}
 				walk(nx)
 			}
+			// a function that loads one file: the pass ends with its successful return
+			if st.li.header == st.fn.Blocks[0] {
+				if ret, isRet := b.Instrs[len(b.Instrs)-1].(*ssa.Return); isRet {
+					okRet := true
+					for i, r := range ret.Results {
+						if errorLike(st.fn.Signature.Results().At(i).Type()) && !isNilConst(r) {
+							okRet = false // fails the load
+						}
+					}
+					if okRet {
+						skipAt = m.InstrPos(ret)
+					}
+				}
+			}
 		}
-		for _, nx := range st.li.header.Succs {
-			if st.li.body[nx] {
-				walk(nx)
+		if st.li.header == st.fn.Blocks[0] {
+			walk(st.li.header)
+		} else {
+			for _, nx := range st.li.header.Succs {
+				if st.li.body[nx] {
+					walk(nx)
+				}
 			}
 		}
 		if isReg[st.li.header] {
